@@ -225,6 +225,11 @@ def run(c, chk):
     chk.ok('R18.3', '%d call sites of functions that can fail on allocation' % nprop, 'result tested, returned or stored (exceptions listed)', sample=True)
     chk.floor('R18.3 propagation call sites', nprop, 30)
 
+    # ---- R18.5 ---------------------------------------------------------------------------------
+    chk.rule('R18.5', 'what an allocation-failure path releases is only what the failing function acquired: a raw copy of caller data is neutralised before anything can fail')
+    from . import c16
+    c16.whole_array_copy_protected(c, chk, 'R18.5', c16.owned_members(c))
+
     # ---- R18.4 ---------------------------------------------------------------------------------
     term = ('abort', 'exit', '_exit', '__assert_fail')
     nterm = 0
